@@ -262,6 +262,10 @@ def run_unit(unit, variant=None, scratch=None, rlimit=None, keep=False, extra_ar
                         kind = 'unreachable'         # unwrap()/expect() on a value not proved Some/Ok: a reachable panic
         if kind == 'requires' and ('unreachable!' in site_text or 'unreached' in (clause_text or '')):
             kind = 'unreachable'
+        # the overflow preconditions of integer methods in the std contract library (abs, neg, rem_euclid, pow, ..)
+        if kind == 'requires' and clause_text is not None and re.search(r'\.(abs|rem_euclid|pow|div_euclid|neg|wrapping_\w+|isqrt)\s*\([^()]*\)\s*$', site_text.strip()) \
+                and re.search(r'::MIN|::MAX|!= 0', clause_text or ''):
+            kind = 'overflow'
         if kind == 'requires' and clause_text and 'false' == clause_text.strip():
             kind = 'unreachable'
         if kind in ('invariant', 'assert', 'decreases') and so.get('kind') == 'spec' and so.get('label') and not label:
